@@ -21,7 +21,7 @@ TS = 'packages/nbdime/src/'
 PY_SPLITLINES = ['\n', '\r', '\r\n', '\v', '\f', '\x1c', '\x1d', '\x1e', '\x85', ' ', ' ']
 
 
-def run(ctx):
+def _run_base(ctx):
     repo, cg = ctx.repo, ctx.cg
     ctx.rule('R15.1', 'every action Python can emit is accepted by the TS whitelist, the whitelist equals the Action union, and each member has an arm in TS resolveAction', floor=9)
     ctx.rule('R15.2', 'diff op vocabulary: Python ops = TS DiffOp union; TS patchers/validators have arms for the ops of their container kind', floor=6)
@@ -145,3 +145,27 @@ def run(ctx):
     ctx.inst('R15.4', TS + 'diff/util.ts:flattenStringDiff', 'arms %s; calls %s; sortByKey->stableSort=%s' % (
         sorted(lits), sorted(calls & {'opAddRange', 'opRemoveRange', 'join', 'sortByKey', 'splitLines'}), stable), ok,
         'expected shape' if ok else 'TS flattener lost an arm, the line split or the stable sort', None)
+
+
+def run(ctx):
+    ctx.rule('R15.5', 'the "cleared value" helper maps every JSON kind to the same result kind on both sides (exhaustive over null/boolean/number/string/array/object)', floor=6)
+    _run_base(ctx)
+    from ..tskind import ts_kind_function, py_kind_function, JSON_KINDS
+    repo = ctx.repo
+    dec = TsFile(repo, TS + 'merge/decisions.ts')
+    ts_table, arms = ts_kind_function(dec, 'makeClearedValue', 'value')
+    pyfn = repo.func(mf.DEC + ':make_cleared_value')
+    py_table = py_kind_function(pyfn, mf.DEC + ':make_cleared_value')
+    # both helpers are only reached from the `clear` action
+    rbody = dec.function_body('resolveAction')
+    if not any(name == 'makeClearedValue' for name, line in dec.calls(rbody)):
+        raise AnalysisError('TS resolveAction no longer calls makeClearedValue')
+    ctx.extra.setdefault('ts_extracted', {})['makeClearedValue'] = {k: v[0] for k, v in ts_table.items()}
+    for kind in JSON_KINDS:
+        t = ts_table[kind][0]
+        p = py_table[kind]
+        ok = p == [t]
+        ctx.inst('R15.5', TS + 'merge/decisions.ts:makeClearedValue', 'base value of kind %s: TS -> %s, Python -> %s' % (kind, t, '/'.join(p)), ok,
+                 'both sides clear it to the same kind' if ok else
+                 'clearing a %s base value gives %s in the browser (arm %s, line %s) but %s on the server: a `clear` decision (conflicting execution_count, outputs, ...) '
+                 'is applied differently' % (kind, t, ts_table[kind][1], ts_table[kind][2], '/'.join(p)), None)
